@@ -311,6 +311,17 @@ def rule_open_skips(ctx):
             inner = [a for a in ancestors(c) if isinstance(a, (ast.For, ast.While))]
             if inner and inner[0] is not lp:
                 continue
+            # a `continue` that ends an arm in which the component HAS been resolved (its block stores the decoded
+            # component before it) is not a skip
+            blk = getattr(c, 'parent', None)
+            sibs = []
+            for fld in ('body', 'orelse'):
+                b_ = getattr(blk, fld, None)
+                if isinstance(b_, list) and any(x is c for x in b_):
+                    sibs = b_[:[i for i, x in enumerate(b_) if x is c][0]]
+            if any(isinstance(x, ast.Call) and call_name(x) == 'setComponentByPosition' for st_ in sibs for x in ast.walk(st_)) or \
+                    any(isinstance(x, ast.For) and isinstance(x.iter, ast.Call) and call_name(x.iter) == 'decodeFun' for st_ in sibs for x in ast.walk(st_)):
+                continue
             n += 1
             in_handler = any(isinstance(a, ast.ExceptHandler) and norm(a.type) == 'KeyError' for a in ancestors(c))
             from sa.util import is_log_test
